@@ -406,13 +406,14 @@ def gen_vocab():
             c = ren.get(v, v[0].lower() + v[1:])
             out.append("  | .%s%s => \"%s\"" % (c, " _" * len(fs), v))
         out.append("")
+        out.append("/-- sorted by variant name: the order of the variants in the source is not part of the vocabulary -/")
         out.append("def %sFields : List (String × List String) :=" % low)
-        out.append("  [" + ",\n   ".join("(\"%s\", [%s])" % (v, ", ".join('"%s"' % x for x in fs)) for v, fs in vs) + "]")
+        out.append("  [" + ",\n   ".join("(\"%s\", [%s])" % (v, ", ".join('"%s"' % x for x in fs)) for v, fs in sorted(vs)) + "]")
         out.append("")
     # ErrorReason is not mirrored one-to-one (the model's EvalErr adds the offset and the panic / fuel outcomes); recorded as data
     vs = parse_enum(strip_rust_comments(read("errors.rs")), "ErrorReason")
     out.append("def errorReasonFields : List (String × List String) :=")
-    out.append("  [" + ", ".join("(\"%s\", [%s])" % (v, ", ".join('"%s"' % x for x in fs)) for v, fs in vs) + "]")
+    out.append("  [" + ", ".join("(\"%s\", [%s])" % (v, ", ".join('"%s"' % x for x in fs)) for v, fs in sorted(vs)) + "]")
     out += ["", "end JmesVerif.Generated", ""]
     return "\n".join(out)
 
